@@ -1,2 +1,231 @@
--- driver stub for C12: replaced by the real line-protocol driver
-def main : IO Unit := pure ()
+/-
+Driver of C12 (date arithmetic). One JSON request per line, batches inside a request.
+
+  {"op":"addMonths","items":[[y,m,d,"n/d"],..]}                     -> {"model":[[y,m,d],..]}
+  {"op":"inverse","items":[[py,pm,pd,ey,em,ed],..],"impl":[[y,m,d]|null,..]}
+        -> {"lag":["n/d",..],"model":[[y,m,d],..],"spec":[bool|null,..]}
+  {"op":"intShift","items":[[y,m,d,k],..],"impl":[[y,m,d]|null,..]}
+        -> {"model":[[y,m,d],..],"spec":[bool|null,..]}
+  {"op":"devLag","items":[[py,pm,pd,ey,em,ed,"unit"],..],"impl":["n/d"|null,..]}
+        -> {"model":["n/d"|null,..],"spec":[bool|null,..]}   (null model: unit refused)
+  {"op":"monthId","items":[[y,m,d],..],"impl":[[id,[first],[last]]|null,..]}
+        -> {"model":[[id,[first],[last]],..],"spec":[bool|null,..]}
+  {"op":"idToMonth","items":[[id,beginning],..],"impl":[[y,m,d]|null,..]}
+        -> {"model":[[y,m,d],..],"spec":[..]}
+  {"op":"resolution","items":[[y,m,d,q,"units",negative],..],"impl":[[y,m,d]|null,..]}
+        -> {"model":[{"std":[q,"month"|"day"],"res":[y,m,d]}|{"err":"ValueError"},..],"spec":[..]}
+  {"op":"enum", "kmin":a,"kmax":b,"idlo":l,"idhi":h, and one of
+        "dates":[[y,m,d],..] | "from":[y,m,d],"n":count | "monthEnds":[idFrom,idTo]}
+        -> {"rows":[[y,m,d,count,s1,s2],..]}
+     one digest per start date over every integer k in [kmin,kmax] with idlo <= monthId(d)+k <= idhi:
+     count, s1 = sum ord(r_k), s2 = sum (k-kmin+1)*ord(r_k), r_k = addMonths d k, ord = Date.ordinal
+  {"op":"row","d":[y,m,d],"kmin","kmax","idlo","idhi"} -> {"ks":[k,..],"res":[[y,m,d],..]}
+-/
+import Bermuda.Model.Json
+import Bermuda.Model.DateUtils
+import Bermuda.Spec.C12
+open Lean Bermuda
+
+def arr? (j : Json) (k : String) : Except String (Array Json) := do (← j.getObjVal? k).getArr?
+
+def int? (j : Json) (k : String) : Except String Int := do jInt? (← j.getObjVal? k)
+
+/-- dates at positions `i, i+1, i+2` of a flat item -/
+def dateAt (a : Array Json) (i : Nat) : Except String Date := do
+  return ⟨← jInt? a[i]!, ← a[i+1]!.getNat?, ← a[i+2]!.getNat?⟩
+
+def implAt (impl : Option (Array Json)) (i : Nat) : Json :=
+  match impl with
+  | some a => a[i]?.getD Json.null
+  | none => Json.null
+
+def optImpl (j : Json) : Option (Array Json) :=
+  match arr? j "impl" with
+  | .ok a => some a
+  | .error _ => none
+
+def specOn (impl : Json) (f : Json → Except String Bool) : Except String Json :=
+  if impl.isNull then return Json.null else return Json.bool (← f impl)
+
+def ksFor (d : Date) (kmin kmax idlo idhi : Int) : Int × Int :=
+  let id := monthToId d
+  (max kmin (idlo - id), min kmax (idhi - id))
+
+/-- digest of one start date -/
+def digest (d : Date) (kmin kmax idlo idhi : Int) : Json := Id.run do
+  let (lo, hi) := ksFor d kmin kmax idlo idhi
+  let mut cnt : Nat := 0
+  let mut s1 : Int := 0
+  let mut s2 : Int := 0
+  let n := (hi - lo + 1).toNat
+  for i in [0:n] do
+    let k : Int := lo + i
+    let o := (addMonths d (k : Rat)).ordinal
+    cnt := cnt + 1
+    s1 := s1 + o
+    s2 := s2 + (k - kmin + 1) * o
+  return Json.arr #[Json.num (JsonNumber.fromInt d.y), (d.m : Nat), (d.d : Nat), (cnt : Nat),
+                    Json.num (JsonNumber.fromInt s1), Json.num (JsonNumber.fromInt s2)]
+
+def unitOf (s : String) : Option LagUnit := LagUnit.parse? s
+
+def handle (j : Json) : Except String Json := do
+  let op ← (← j.getObjVal? "op").getStr?
+  match op with
+  | "addMonths" =>
+    let items ← arr? j "items"
+    let out ← items.mapM fun it => do
+      let a ← it.getArr?
+      let d ← dateAt a 0
+      let q ← ratFromJson a[3]!
+      return (addMonths d q).toJson
+    return Json.mkObj [("model", Json.arr out)]
+  | "inverse" =>
+    let items ← arr? j "items"
+    let impl := optImpl j
+    let mut lags := #[]
+    let mut model := #[]
+    let mut spec := #[]
+    for i in [0:items.size] do
+      let a ← items[i]!.getArr?
+      let p ← dateAt a 0
+      let e ← dateAt a 3
+      let lag := devLagMonths p e
+      lags := lags.push (ratToJson lag)
+      model := model.push (addMonths p lag).toJson
+      spec := spec.push (← specOn (implAt impl i) fun r => do return Spec.inverseOk e (← Date.fromJson r))
+    return Json.mkObj [("lag", Json.arr lags), ("model", Json.arr model), ("spec", Json.arr spec)]
+  | "intShift" =>
+    let items ← arr? j "items"
+    let impl := optImpl j
+    let mut model := #[]
+    let mut spec := #[]
+    for i in [0:items.size] do
+      let a ← items[i]!.getArr?
+      let d ← dateAt a 0
+      let k ← jInt? a[3]!
+      model := model.push (addMonths d (k : Rat)).toJson
+      spec := spec.push (← specOn (implAt impl i) fun r => do return Spec.intShiftOk d k (← Date.fromJson r))
+    return Json.mkObj [("model", Json.arr model), ("spec", Json.arr spec)]
+  | "devLag" =>
+    let items ← arr? j "items"
+    let impl := optImpl j
+    let mut model := #[]
+    let mut spec := #[]
+    for i in [0:items.size] do
+      let a ← items[i]!.getArr?
+      let pe ← dateAt a 0
+      let ev ← dateAt a 3
+      let u ← a[6]!.getStr?
+      match unitOf u with
+      | none =>
+        model := model.push Json.null
+        spec := spec.push Json.null
+      | some un =>
+        let c : Cell := { ps := pe, pe := pe, ev := ev }
+        model := model.push (ratToJson (c.devLag un))
+        spec := spec.push (← specOn (implAt impl i) fun r => do
+          let q ← ratFromJson r
+          match un with
+          | .month =>
+            if pe.isMonthEnd && ev.isMonthEnd then return Spec.monthEndLagOk pe ev q else return true
+          | _ => return q.den == 1 && Spec.dayLagOk pe ev q.num)
+    return Json.mkObj [("model", Json.arr model), ("spec", Json.arr spec)]
+  | "monthId" =>
+    let items ← arr? j "items"
+    let impl := optImpl j
+    let mut model := #[]
+    let mut spec := #[]
+    for i in [0:items.size] do
+      let a ← items[i]!.getArr?
+      let d ← dateAt a 0
+      let id := monthToId d
+      model := model.push (Json.arr #[Json.num (JsonNumber.fromInt id), (idToMonth id true).toJson,
+                                       (idToMonth id false).toJson])
+      spec := spec.push (← specOn (implAt impl i) fun r => do
+        let ra ← r.getArr?
+        let iid ← jInt? ra[0]!
+        let f ← Date.fromJson ra[1]!
+        let l ← Date.fromJson ra[2]!
+        return Spec.monthIdOk d iid && Spec.firstDayOk d f && Spec.lastDayOk d l)
+    return Json.mkObj [("model", Json.arr model), ("spec", Json.arr spec)]
+  | "idToMonth" =>
+    let items ← arr? j "items"
+    let impl := optImpl j
+    let mut model := #[]
+    let mut spec := #[]
+    for i in [0:items.size] do
+      let a ← items[i]!.getArr?
+      let id ← jInt? a[0]!
+      let b ← a[1]!.getBool?
+      model := model.push (idToMonth id b).toJson
+      spec := spec.push (← specOn (implAt impl i) fun r => do return Spec.idToMonthOk id b (← Date.fromJson r))
+    return Json.mkObj [("model", Json.arr model), ("spec", Json.arr spec)]
+  | "resolution" =>
+    let items ← arr? j "items"
+    let impl := optImpl j
+    let mut model := #[]
+    let mut spec := #[]
+    for i in [0:items.size] do
+      let a ← items[i]!.getArr?
+      let d ← dateAt a 0
+      let q ← jInt? a[3]!
+      let u ← a[4]!.getStr?
+      let neg ← a[5]!.getBool?
+      match standardizeResolution q u with
+      | .error e =>
+        model := model.push (Json.mkObj [("err", Json.str e.name)])
+        spec := spec.push Json.null
+      | .ok (q', ru) =>
+        let r := resolutionDelta d q' ru neg
+        let us := match ru with | .month => "month" | .day => "day"
+        model := model.push (Json.mkObj [("std", Json.arr #[Json.num (JsonNumber.fromInt q'), Json.str us]),
+                                         ("res", r.toJson)])
+        spec := spec.push (← specOn (implAt impl i) fun rj => do
+          let ri ← Date.fromJson rj
+          match ru with
+          | .day => return Spec.dayDeltaOk d q' neg ri
+          | .month => return Spec.intShiftOk d (if neg then -q' else q') ri)
+    return Json.mkObj [("model", Json.arr model), ("spec", Json.arr spec)]
+  | "enum" =>
+    let kmin ← int? j "kmin"
+    let kmax ← int? j "kmax"
+    let idlo ← int? j "idlo"
+    let idhi ← int? j "idhi"
+    let mut rows := #[]
+    match j.getObjVal? "dates" with
+    | .ok ds =>
+      for it in (← ds.getArr?) do
+        rows := rows.push (digest (← Date.fromJson it) kmin kmax idlo idhi)
+    | .error _ =>
+      match j.getObjVal? "monthEnds" with
+      | .ok me =>
+        let a ← me.getArr?
+        let lo ← jInt? a[0]!
+        let hi ← jInt? a[1]!
+        for i in [0:(hi - lo + 1).toNat] do
+          rows := rows.push (digest (idToMonth (lo + i) false) kmin kmax idlo idhi)
+      | .error _ =>
+        let mut d ← Date.fromJson (← j.getObjVal? "from")
+        let n ← (← j.getObjVal? "n").getNat?
+        for _ in [0:n] do
+          rows := rows.push (digest d kmin kmax idlo idhi)
+          d := d.succ
+    return Json.mkObj [("rows", Json.arr rows)]
+  | "row" =>
+    let d ← Date.fromJson (← j.getObjVal? "d")
+    let kmin ← int? j "kmin"
+    let kmax ← int? j "kmax"
+    let idlo ← int? j "idlo"
+    let idhi ← int? j "idhi"
+    let (lo, hi) := ksFor d kmin kmax idlo idhi
+    let mut ks := #[]
+    let mut res := #[]
+    for i in [0:(hi - lo + 1).toNat] do
+      let k : Int := lo + i
+      ks := ks.push (Json.num (JsonNumber.fromInt k))
+      res := res.push (addMonths d (k : Rat)).toJson
+    return Json.mkObj [("ks", Json.arr ks), ("res", Json.arr res)]
+  | o => throw s!"unknown op {o}"
+
+def main : IO Unit := serve handle
